@@ -69,15 +69,15 @@ var universe = []tyInfo{
 }
 
 var (
-	allTypes  []string
-	concTypes []string
-	rtypes    = map[string]reflect.Type{}
-	tyByName  = map[string]*tyInfo{}
-	coqTyMap  = map[string]string{}
-	coqDynMap = map[string]string{"nil": "DNil"}
-	dynNames  []string          // every dynamic value name ("T1", ..., "P1z", "nil")
-	dynType   = map[string]string{} // dynamic value name -> name of its dynamic type ("" for nil)
-	methodsOf = map[string][]int{}  // type name -> sorted method ids
+	allTypes   []string
+	concTypes  []string
+	rtypes     = map[string]reflect.Type{}
+	tyByName   = map[string]*tyInfo{}
+	coqTyMap   = map[string]string{}
+	coqDynMap  = map[string]string{"nil": "DNil"}
+	dynNames   []string              // every dynamic value name ("T1", ..., "P1z", "nil")
+	dynType    = map[string]string{} // dynamic value name -> name of its dynamic type ("" for nil)
+	methodsOf  = map[string][]int{}  // type name -> sorted method ids
 	coqUnivDef string
 )
 
